@@ -60,15 +60,19 @@ RayOK(q) ==
 \* to the surface is < r (tangency is not decided)
 BallOK(b) == Sq(b.r8) = BoxD2(b.c) \/ b.hit = (BoxD2(b.c) < Sq(b.r8))
 
+\* model2d records pad z with 0: only x and y are compared
+Is2D == R.site = "model2d"
+P2(v) == IF Is2D THEN <<v[1], v[2], 0>> ELSE v
+AxesCmp == IF Is2D THEN 1..2 ELSE 1..3
 Holds(c) ==
     CASE c = "panic" -> R.panic = ""
       [] c = "apply" -> \A i \in 1..Len(R.pts) : LET q == R.pts[i] IN
-                           ExactC(C, 1, q.p) => (q.apx /\ q.ap = Img(C, q.p))
+                           ExactC(C, 1, q.p) => (q.apx /\ q.ap = P2(Img(C, q.p)))
       [] c = "inverse" -> \A i \in 1..Len(R.pts) : R.pts[i].inv /\ R.pts[i].inv2
       [] c = "bounds" -> /\ R.bx
                          /\ \A i \in 1..Len(R.pts) : LET q == R.pts[i] IN
                               (InBox(q.p) /\ ExactC(C, 1, q.p)) =>
-                                 \A a \in 1..3 : R.blo[a] <= Img(C, q.p)[a] /\ Img(C, q.p)[a] <= R.bhi[a]
+                                 \A a \in AxesCmp : R.blo[a] <= Img(C, q.p)[a] /\ Img(C, q.p)[a] <= R.bhi[a]
       [] c = "distance" -> \A i \in 1..Len(R.dists) : LET q == R.dists[i] IN
                               (ExactC(C, 1, q.p) /\ ExactC(C, 1, q.q)) => (q.adx /\ q.ad2 = D2(Img(C, q.p), Img(C, q.q)))
       [] c = "solid" -> \A i \in 1..Len(R.solid) : LET q == R.solid[i] IN OnBoxBoundary(q.x) \/ q.in = InBox(q.x)
